@@ -400,6 +400,20 @@ for _p in [k for k, v in PROPS.items() if A_SVV in v["assumptions"]]:
             break
     else:
         PROPS[_p]["verus"].append({"unit": U1, "fns": ["NodeState::set_versioned_value"]})
+A_C13 = "A-iter / A-watch / A-pred (C13): the two `flat_map(..).collect()` chains of update_nodes_liveness are contracted stubs (the map of the closure's Some results over `once(self id).chain(detector live set)` resp. over the keys; the closure bodies themselves are proved as slices); tokio's watch::Sender is opaque with ghost views (value held, number of publications) and `send` always stores because Chitchat keeps a receiver; `HashMap != HashMap` compares contents; the user predicate (Box<dyn Fn>) is a function of the node state it is shown; the representation invariant watch_inv (watch value <-> previous_live_nodes) is assumed of the pre-state: the constructor establishes it (both empty) and only update_nodes_liveness writes the two private fields; all of it is exercised on the real function by the bounded driver c13_watch"
+PROPS["C13"] = {
+    "level": "proof",
+    "verus": [{"unit": U5, "fns": ["Chitchat::update_nodes_liveness__watch", "Chitchat::live_entry", "Chitchat::published_entry", "Chitchat::node_state", "lemma_current_unique",
+                                   "Chitchat::update_nodes_liveness", "Chitchat::self_chitchat_id", "ClusterState::remove_node"]}],
+    "native": [{"test": "verif_c13_watch", "pairs": ["Chitchat::update_nodes_liveness"]}],
+    "kani": [],
+    "assumptions": [A_STD, A_KEY, A_U5, A_C13, A_TERM, A_TEST_CFG],
+    "level_text": "One evaluation step is decided by proof on the real text of Chitchat::update_nodes_liveness, for every state satisfying the representation invariant: afterwards the watch value lists exactly the live members (local node included) that have a state satisfying the extra predicate, each snapshot carrying the member's current max version; a new value is published iff the (live member -> max version, predicate outcome) map differs from the one of the previous evaluation, in particular whenever the live set or a live member's max version changed; the node GC at the end of the step removes only non-live members. The two closure bodies are proved as slices (first: (max version, predicate outcome) iff the member has a state; second: a clone of the state iff it satisfies the predicate).",
+    "level_note": "The two collect() chains, HashMap inequality and the watch sender are contracted stubs (A-iter / A-watch), so 'the map really is what the chain builds' and 'the receiver really sees what was sent' are checked only by the bounded driver c13_watch on the real function (every sequence of <= 6/7 operations over heartbeats, silence, key writes / TTL / tombstones, local writes, key GC, evaluations; with and without a predicate), labelled bounded. Lifting 'every step' to 'every history' uses that previous_live_nodes and the sender are private to this function. The TTL + key-GC history that broke the first sentence on the original code (F-6, fixed by 03fc0b1) is part of the driver's scope.",
+    "technique": "Verus contracts on the extracted update_nodes_liveness (closure bodies as slices, collect chains as contracted stubs, ghost views of the watch sender) + bounded native comparison on the real function",
+    "explanation": "",
+    "design_ref": "DESIGN.md §11b",
+}
 U2_CODEC = ["ChitchatId::serialize", "ChitchatId::serialized_len", "Heartbeat::serialize", "Heartbeat::serialized_len", "NodeDigest::serialize",
             "NodeDigest::serialized_len", "alloc::string::String::serialize", "alloc::string::String::serialized_len",
             "DeletionStatusMutation::serialize", "DeletionStatusMutation::serialized_len", "KeyValueMutationRef::serialize",
@@ -412,6 +426,5 @@ PROPS["C08"]["assumptions"].append("primitive layouts enc_u64 / enc_str / enc_ad
 
 NOT_APPLICABLE = {
     "C01": "liveness over unbounded multi-node histories under fairness; no contract on one call expresses 'within a bounded number of handshakes' (its per-handshake progress sentence is decided under C14: lemma_agree + lemma_admitted_strictly_advances)",
-    "C13": "the whole body of update_nodes_liveness is iterator/closure chains over HashMap/BTreeMap feeding a tokio watch channel: Verus cannot take it and Kani cannot build the collections, so no deductive obligation can be generated; a bounded run alone would be testing, a different family",
     "C19": "async select loop, channels, lock ordering and shutdown liveness: concurrency and whole-history behaviour that neither Verus nor Kani models",
 }
